@@ -306,6 +306,88 @@ func (*Thread).opCloseUpvalues
     invariant stackmem: forall a int :: a >= 0 ==> load(value.Value, a) == old(load(value.Value, a))
     decreases ite(vm.openUpvalueHead == nil, 0, vm.openUpvalueHead.slot - sbase(vm) + 1)
 
+// ==== stack traces (C32) ================================================================
+// The trace of a thread lists, outermost first, every suspended call frame that stands for a
+// call (native frames and bytecode frames; sentinels carry neither) followed by the running
+// frame; each entry carries the line its frame's next instruction - 1 maps to in the line table
+// (native frames: the recorded line).  Prepending to the trace of a rejected promise builds a
+// new trace and leaves the promise's trace alone.
+spec fn cfIdx(vm *Thread) int = tdiv(vm.cfp - sliceptr(vm.callFrames), 72)
+spec fn inclFrame(vm *Thread, j int) bool = elem(vm.callFrames, j).isNative || elem(vm.callFrames, j).bytecode != nil
+spec rec fn cntTr(vm *Thread, n int) int = ite(n <= 0, 0, cntTr(vm, n - 1) + ite(inclFrame(vm, n - 1), 1, 0))
+spec fn wfBc(b *BytecodeFunction) bool = b != nil && len(b.Instructions) >= 1 && wfLines(b.LineInfoList) && psum(b.LineInfoList, len(b.LineInfoList)) <= 72057594037927936
+spec fn ipIn(b *BytecodeFunction, ip int) bool = sliceptr(b.Instructions) <= ip && ip <= sliceptr(b.Instructions) + len(b.Instructions)
+spec fn wfCf(cf *CallFrame) bool = cf.isNative || (wfBc(cf.bytecode) && ipIn(cf.bytecode, cf.ip))
+spec fn frameLine(cf *CallFrame) int = ite(cf.isNative, cf.localCount, cf.bytecode.LineInfoList.GetLineNumber(cf.ip - sliceptr(cf.bytecode.Instructions) - 1))
+spec fn wfFrames(vm *Thread) bool = vm != nil && len(vm.callFrames) >= 1 && sliceptr(vm.callFrames) > 0 && sliceptr(vm.callFrames) <= vm.cfp && emod(vm.cfp - sliceptr(vm.callFrames), 72) == 0 && cfIdx(vm) <= len(vm.callFrames) && (forall j int :: 0 <= j && j < len(vm.callFrames) && !elem(vm.callFrames, j).isNative && elem(vm.callFrames, j).bytecode != nil ==> wfBc(elem(vm.callFrames, j).bytecode) && ipIn(elem(vm.callFrames, j).bytecode, elem(vm.callFrames, j).ip)) && (vm.bytecode != nil ==> wfBc(vm.bytecode) && ipIn(vm.bytecode, vm.ip))
+
+lemma cntTrBound(vm *Thread, n int)
+  props C32
+  requires 0 <= n
+  ensures 0 <= cntTr(vm, n) && cntTr(vm, n) <= n
+  induction n from 0
+
+lemma cntTrMono(vm *Thread, a int, b int)
+  props C32
+  requires 0 <= a && a <= b
+  ensures cntTr(vm, a) <= cntTr(vm, b)
+  induction b from a
+
+func (*CallFrame).LineNumber
+  props C32
+  requires c != nil && wfCf(c)
+  assigns nothing
+  ensures ret == frameLine(c)
+
+func (*CallFrame).ToCallFrameObject
+  props C32
+  requires cf != nil && wfCf(cf)
+  assigns nothing
+  ensures line: ret.LineNumber == frameLine(cf)
+  ensures tail: ret.TailCallCounter == cf.tailCallCounter
+
+func (*Thread).makeCallFrameObject
+  props C32
+  requires vm != nil && wfBc(vm.bytecode) && ipIn(vm.bytecode, vm.ip)
+  assigns nothing
+  ensures line: ret.LineNumber == vm.bytecode.LineInfoList.GetLineNumber(vm.ip - sliceptr(vm.bytecode.Instructions) - 1)
+  ensures tail: ret.TailCallCounter == vm.tailCallCounter
+
+func (*Thread).BuildStackTracePrepend
+  props C32
+  uses cntTrBound, cntTrMono
+  requires wfFrames(vm) && base != nil
+  ensures fresh: ret != nil && fresh(ret) && freshSlice(*ret)
+  ensures base: *base == old(*base) && (forall k int :: 0 <= k && k < len(*base) ==> same(elem(*base, k), old(elem(*base, k))))
+  ensures count: len(*ret) == old(cntTr(vm, cfIdx(vm))) + ite(old(vm.bytecode) != nil, 1, 0) + old(len(*base))
+  ensures suffix: forall k int :: 0 <= k && k < old(len(*base)) ==> same(elem(*ret, len(*ret) - old(len(*base)) + k), old(elem(*base, k)))
+  ensures frames: forall j int :: 0 <= j && j < old(cfIdx(vm)) && old(inclFrame(vm, j)) ==> elem(*ret, old(cntTr(vm, j))).LineNumber == old(frameLine(&vm.callFrames[j])) && elem(*ret, old(cntTr(vm, j))).TailCallCounter == old(elem(vm.callFrames, j).tailCallCounter)
+  ensures current: old(vm.bytecode) != nil ==> elem(*ret, old(cntTr(vm, cfIdx(vm)))).LineNumber == old(vm.bytecode.LineInfoList.GetLineNumber(vm.ip - sliceptr(vm.bytecode.Instructions) - 1))
+  ensures vmkept: vm.callFrames == old(vm.callFrames) && vm.cfp == old(vm.cfp) && vm.bytecode == old(vm.bytecode) && vm.ip == old(vm.ip) && (forall j int :: 0 <= j && j < len(vm.callFrames) ==> elem(vm.callFrames, j).isNative == old(elem(vm.callFrames, j).isNative) && elem(vm.callFrames, j).bytecode == old(elem(vm.callFrames, j).bytecode) && elem(vm.callFrames, j).ip == old(elem(vm.callFrames, j).ip) && elem(vm.callFrames, j).localCount == old(elem(vm.callFrames, j).localCount) && elem(vm.callFrames, j).tailCallCounter == old(elem(vm.callFrames, j).tailCallCounter))
+  loop 1
+    invariant len: len(stackTraceSlice) == old(cntTr(vm, range_idx))
+    invariant cap: cap(stackTraceSlice) == len(*base) + len(callStack) + 1 && freshSlice(stackTraceSlice) && sliceptr(stackTraceSlice) > 0
+    invariant base: *base == old(*base) && (forall k int :: 0 <= k && k < len(*base) ==> same(elem(*base, k), old(elem(*base, k))))
+    invariant cf: vm.callFrames == old(vm.callFrames) && vm.cfp == old(vm.cfp) && vm.bytecode == old(vm.bytecode) && vm.ip == old(vm.ip) && (forall j int :: 0 <= j && j < len(vm.callFrames) ==> elem(vm.callFrames, j).isNative == old(elem(vm.callFrames, j).isNative) && elem(vm.callFrames, j).bytecode == old(elem(vm.callFrames, j).bytecode) && elem(vm.callFrames, j).ip == old(elem(vm.callFrames, j).ip) && elem(vm.callFrames, j).localCount == old(elem(vm.callFrames, j).localCount) && elem(vm.callFrames, j).tailCallCounter == old(elem(vm.callFrames, j).tailCallCounter))
+    invariant frames: forall j int :: 0 <= j && j < range_idx && old(inclFrame(vm, j)) ==> elem(stackTraceSlice, old(cntTr(vm, j))).LineNumber == old(frameLine(&vm.callFrames[j])) && elem(stackTraceSlice, old(cntTr(vm, j))).TailCallCounter == old(elem(vm.callFrames, j).tailCallCounter)
+    decreases len(callStack) - range_idx
+
+func (*Thread).BuildStackTrace
+  props C32
+  uses cntTrBound, cntTrMono
+  requires wfFrames(vm)
+  ensures fresh: ret != nil && fresh(ret) && freshSlice(*ret)
+  ensures count: len(*ret) == old(cntTr(vm, cfIdx(vm))) + ite(old(vm.bytecode) != nil, 1, 0)
+  ensures frames: forall j int :: 0 <= j && j < old(cfIdx(vm)) && old(inclFrame(vm, j)) ==> elem(*ret, old(cntTr(vm, j))).LineNumber == old(frameLine(&vm.callFrames[j])) && elem(*ret, old(cntTr(vm, j))).TailCallCounter == old(elem(vm.callFrames, j).tailCallCounter)
+  ensures current: old(vm.bytecode) != nil ==> elem(*ret, old(cntTr(vm, cfIdx(vm)))).LineNumber == old(vm.bytecode.LineInfoList.GetLineNumber(vm.ip - sliceptr(vm.bytecode.Instructions) - 1))
+  ensures vmkept: vm.callFrames == old(vm.callFrames) && vm.cfp == old(vm.cfp) && vm.bytecode == old(vm.bytecode) && vm.ip == old(vm.ip) && (forall j int :: 0 <= j && j < len(vm.callFrames) ==> elem(vm.callFrames, j).isNative == old(elem(vm.callFrames, j).isNative) && elem(vm.callFrames, j).bytecode == old(elem(vm.callFrames, j).bytecode) && elem(vm.callFrames, j).ip == old(elem(vm.callFrames, j).ip) && elem(vm.callFrames, j).localCount == old(elem(vm.callFrames, j).localCount) && elem(vm.callFrames, j).tailCallCounter == old(elem(vm.callFrames, j).tailCallCounter))
+  loop 1
+    invariant len: len(stackTraceSlice) == old(cntTr(vm, range_idx))
+    invariant cap: cap(stackTraceSlice) == len(callStack) + 1 && freshSlice(stackTraceSlice) && sliceptr(stackTraceSlice) > 0
+    invariant cf: vm.callFrames == old(vm.callFrames) && vm.cfp == old(vm.cfp) && vm.bytecode == old(vm.bytecode) && vm.ip == old(vm.ip) && (forall j int :: 0 <= j && j < len(vm.callFrames) ==> elem(vm.callFrames, j).isNative == old(elem(vm.callFrames, j).isNative) && elem(vm.callFrames, j).bytecode == old(elem(vm.callFrames, j).bytecode) && elem(vm.callFrames, j).ip == old(elem(vm.callFrames, j).ip) && elem(vm.callFrames, j).localCount == old(elem(vm.callFrames, j).localCount) && elem(vm.callFrames, j).tailCallCounter == old(elem(vm.callFrames, j).tailCallCounter))
+    invariant frames: forall j int :: 0 <= j && j < range_idx && old(inclFrame(vm, j)) ==> elem(stackTraceSlice, old(cntTr(vm, j))).LineNumber == old(frameLine(&vm.callFrames[j])) && elem(stackTraceSlice, old(cntTr(vm, j))).TailCallCounter == old(elem(vm.callFrames, j).tailCallCounter)
+    decreases len(callStack) - range_idx
+
 // ==== suspending and resuming generators / async bodies (C15, C10) =======================
 // The interpreter loop itself is outside the verified subset; what is assumed of it is that
 // it returns with a well-formed stack whose current frame starts at vm.fp.
